@@ -102,3 +102,32 @@ def replay(obj):
     if not ok:
         print(f"VIOLATION property=C02 replay=(replayed) {why}")
     return 0 if ok else 1
+
+
+def replay_fold_cell(obj):
+    """C06's table clause on one cell: folded <=> every operand is a literal (all provenances)"""
+    from ..real.env import reset_globals
+    op, stys = obj["op"], [tuple(a) for a in obj["args"]]
+    fns = dict(t1_scalar.BINOPS + t1_scalar.METHODS2 + t1_scalar.UNARY)
+    fns["ifElse"] = lambda x, y, z: x.if_else(y, z)
+    bad = []
+    for prov in t1_scalar.PROVENANCES:
+        reset_globals()
+        from nada_dsl import Party
+        party = Party("p")
+        if op == "random":
+            continue
+        if prov == "fnparam":
+            r = t1_scalar.with_params(stys, lambda *ps: t1_scalar.outcome(lambda: fns[op](*ps)))
+        else:
+            ops = [t1_scalar.build(s, prov, party) for s in stys]
+            r = t1_scalar.outcome(lambda: fns[op](*ops))
+        if r is None or r[0] != "ok" or r[3] == "alias":
+            continue
+        allconst = all(s[0] == "const" for s in stys)
+        if r[2] != allconst or (r[2] and not (r[3] == "Literal" and r[1][0] == "const")):
+            bad.append((prov, list(map(str, r))))
+    print(json.dumps({"op": op, "args": stys, "bad": bad}, default=str))
+    if bad:
+        print("VIOLATION property=C06 replay=(replayed)")
+    return 1 if bad else 0
